@@ -305,3 +305,70 @@ func permutations(n int) [][]int {
 	rec(nil, make([]bool, n))
 	return out
 }
+
+// Delay-bounded enumeration: the dense enumeration above only varies the first few schedule points; windows that
+// open late in a scenario (the second round of a hand-off loop, a release that overlaps the tail of another) are
+// reached by schedules that run undisturbed except for at most two yields placed anywhere among the first 18 points.
+func TestC10_delaybounded_Coop(t *testing.T) {
+	kit.RequireMode(t, "coop")
+	if kit.Replay != "" {
+		kit.Check(t, kit.Prop[c10Case]{ID: "C10", Run: runC10})
+		return
+	}
+	d := kit.NewDirect[c10Case](t, "C10", "exhaustive, delay-bounded: 7 limiter kinds x 5 actor sets x all spawn orders x every schedule with at most 2 non-zero yields (1 or 3) among the first 18 schedule points (thorough: at most 3 among the first 22); non-trivial as TestC10_sampled_Coop")
+	span, maxDelays := 18, 2
+	if kit.Thorough() {
+		span, maxDelays = 22, 3
+	}
+	vals := []uint8{1, 3}
+	// all yield vectors with at most maxDelays non-zero entries
+	var scheds []yieldList
+	var rec func(from, left int, cur yieldList)
+	rec = func(from, left int, cur yieldList) {
+		scheds = append(scheds, append(yieldList(nil), cur...))
+		if left == 0 {
+			return
+		}
+		for p := from; p < span; p++ {
+			for _, v := range vals {
+				cur[p] = v
+				rec(p+1, left-1, cur)
+				cur[p] = 0
+			}
+		}
+	}
+	rec(0, maxDelays, make(yieldList, span))
+	sets := []struct{ limit, h, w, relay int }{{2, 2, 2, 0}, {1, 1, 2, 1}, {2, 1, 2, 0}, {2, 2, 1, 0}, {1, 1, 2, 0}}
+	n := 0
+	for _, base := range c10Kinds {
+		for _, s := range sets {
+			for _, order := range permutations(s.h + s.w) {
+				for _, ys := range scheds {
+					n++
+					if n%kit.Shards != kit.Shard {
+						continue
+					}
+					c := c10Case{Stack: base, Waiters: s.w, Order: order, Yields: ys}
+					if s.relay > 0 {
+						c.Relays = []int{0}
+					}
+					if base.Kind != "queue" {
+						c.Ghosts = n % 3
+					}
+					c.Stack.Inject = true
+					c.Stack.Strategy = "simple"
+					c.Stack.Limit = s.limit
+					for i := 0; i < s.h; i++ {
+						c.Outcomes = append(c.Outcomes, (n+i)%3)
+					}
+					stop := kit.Watch("C10", t.Name(), c)
+					o := runC10(t, c)
+					stop()
+					if !d.Account(c, o) {
+						return
+					}
+				}
+			}
+		}
+	}
+}
